@@ -29,7 +29,7 @@ MODELS = {
                  ('Ddmin', 'MC_Ddmin_par.cfg', 900, SEQ),
                  ('Ddmin', 'MC_Ddmin_par3.cfg', 3000, SEQ)],
 }
-NRUNS = {'quick': 48, 'thorough': 600}
+NRUNS = {'quick': 40, 'thorough': 600}
 
 
 def make_configs(r, n):
@@ -58,7 +58,7 @@ def make_configs(r, n):
             # parallel ddmin with several successes per batch that complete
             # out of order: many top-level commands (more than 2 x jobs
             # subsets), a permissive command, widely varying check times
-            na = r.choice([14, 18, 24])
+            na = r.choice([12, 15, 18])
             if i % 8 == 6:
                 # all assertions must stay and hold single-digit constants:
                 # many constant substitutions (7 -> 0) are accepted in the
@@ -88,7 +88,7 @@ def make_configs(r, n):
                 spec.clear()
                 spec.update({'mode': 'contains',
                              'markers': ['check-sat'] + keep})
-            spec.update({'delay_ms': r.choice([25, 40]),
+            spec.update({'delay_ms': r.choice([15, 25]),
                          'delay_seed': r.randint(0, 10**6)})
             st = r.choice(['ddmin', 'hybrid'])
             opts[opts.index('--strategy') + 1] = st
@@ -105,7 +105,7 @@ def sched_configs(r, tier):
     hierarchical input."""
     import itertools
     out = []
-    plans = [(2, 4), (3, 2)] if tier == 'quick' else [(2, 9), (3, 6), (4, 4)]
+    plans = [(2, 3), (3, 2)] if tier == 'quick' else [(2, 9), (3, 6), (4, 4)]
     for jobs, depth in plans:
         for strat in ('ddmin', 'hierarchical'):
             na = 9
